@@ -48,5 +48,40 @@ package parser
 //@   ensures[left_assoc;C07] len(result) == 1 && result[0] == lchain(nodes, (len(nodes)-1)/2)
 //@   loop 0 invariant 1 <= i && i % 2 == 1 && i <= len(nodes) && r == lchain(nodes, (i-1)/2)
 //
+// ---- precedence levels (C07: "five binary precedence levels, all left-associative") --------------------
+// Each binary level parses `operand (op operand)*` where every operand - the first and the repeated
+// one - is the next tighter level, and hands the items to mkLeftChain. (Which operator tokens belong
+// to a level is not checked: the token predicates are closures.)
+//@ func boolOp [C07]
+//@   checks
+//@   modifies *
+//@   atcall ^c.Any( with (callee_a combinator.Conditional) requires[repeated_operand_is_next_level;C07] fnid(callee_a.OnSuccess) == fnid(relational)
+//@   atcall ^c.And( with (callee_a combinator.Parser) requires[first_operand_is_next_level;C07] fnid(callee_a) == fnid(relational)
+//@   atcall ^c.Fmap( with (callee_f func([]combinator.Node) []combinator.Node) requires[built_left_associated;C07] fnid(callee_f) == fnid(mkLeftChain)
+//@ func relational [C07]
+//@   checks
+//@   modifies *
+//@   atcall ^c.Any( with (callee_a combinator.Conditional) requires[repeated_operand_is_next_level;C07] fnid(callee_a.OnSuccess) == fnid(logic)
+//@   atcall ^c.And( with (callee_a combinator.Parser) requires[first_operand_is_next_level;C07] fnid(callee_a) == fnid(logic)
+//@   atcall ^c.Fmap( with (callee_f func([]combinator.Node) []combinator.Node) requires[built_left_associated;C07] fnid(callee_f) == fnid(mkLeftChain)
+//@ func logic [C07]
+//@   checks
+//@   modifies *
+//@   atcall ^c.Any( with (callee_a combinator.Conditional) requires[repeated_operand_is_next_level;C07] fnid(callee_a.OnSuccess) == fnid(addsub)
+//@   atcall ^c.And( with (callee_a combinator.Parser) requires[first_operand_is_next_level;C07] fnid(callee_a) == fnid(addsub)
+//@   atcall ^c.Fmap( with (callee_f func([]combinator.Node) []combinator.Node) requires[built_left_associated;C07] fnid(callee_f) == fnid(mkLeftChain)
+//@ func addsub [C07]
+//@   checks
+//@   modifies *
+//@   atcall ^c.Any( with (callee_a combinator.Conditional) requires[repeated_operand_is_next_level;C07] fnid(callee_a.OnSuccess) == fnid(divmul)
+//@   atcall ^c.And( with (callee_a combinator.Parser) requires[first_operand_is_next_level;C07] fnid(callee_a) == fnid(divmul)
+//@   atcall ^c.Fmap( with (callee_f func([]combinator.Node) []combinator.Node) requires[built_left_associated;C07] fnid(callee_f) == fnid(mkLeftChain)
+//@ func divmul [C07]
+//@   checks
+//@   modifies *
+//@   atcall ^c.Any( with (callee_a combinator.Conditional) requires[repeated_operand_is_next_level;C07] fnid(callee_a.OnSuccess) == fnid(unary)
+//@   atcall ^c.And( with (callee_a combinator.Parser) requires[first_operand_is_next_level;C07] fnid(callee_a) == fnid(unary)
+//@   atcall ^c.Fmap( with (callee_f func([]combinator.Node) []combinator.Node) requires[built_left_associated;C07] fnid(callee_f) == fnid(mkLeftChain)
+//
 //@ canary func (tokenWrapper).Wrap
 //@   ensures false
